@@ -15,6 +15,46 @@ CHECKS = {
          'Counter is state-determined, so transition coverage covers all sequences over the model constants.',
          'integers / halves with |x|<2^30; TLC, the JSON reader and the harness projection are trusted', '6 C20'),
 }
+TRUSTED = 'TLC, the JSON reader, the virtual-time loop and the harness projection (Python value -> integer code) are trusted; nothing is claimed about executions that were not generated'
+CHECKS.update({
+ 'C01': (MC, 'TLC model checking of Sim.tla/CBlocks.tla (all acyclic topologies, all input vectors, bursts) + batch trace validation of real runs against the monitor SimTrace.tla',
+         'Sim.tla (the _simulate loop: evalSet, queue, counter, select_blk) is model-checked exhaustively for all acyclic topologies of <=3 blocks '
+         'over 2 inputs (IdleConsistent, EvalSetSound, BoundedWork) under the code heuristic and under any evaluation order; the same topologies and '
+         'seeded random circuits (groups, Consts, _not_ shortcuts, Compare/Override/FuncBlock, feedback events, creation orders) run on the real '
+         'simulator; every eval_block() call and every idle point is validated by TLC against the monitor, IdleConsistent evaluated in every state.',
+         TRUSTED + '; FuncBlock is represented by a fixed menu of functions', '6 C01'),
+ 'C02': (MC, 'TLC model checking of OutEvents.tla (all histories <=5) + batch trace validation of real set_output/eval_block deliveries',
+         'OutEvents.tla (AssignS/AssignC with filters from Filters.tla) is model-checked (Chained, EveryAssignmentSeen, Order); real senders '
+         '(probe SBlock, Input, FuncBlock) with 0..3 events per trigger and filters are driven through assignment histories over objects in equality '
+         'classes (1/True/1.0, equal tuples); each assignment line must carry exactly the predicted deliveries in order, nothing late.',
+         TRUSTED + '; values are compared by equality class, identity of the stored object is not asserted', '6 C02'),
+ 'C03': (MC, 'TLC model checking of Fsm.tla (all 2x2 tables x chain scripts) + sharpness self-test + batch trace validation of generated FSM classes',
+         'Fsm.tla defines the complete observable effect of one event() call (Handle); TLC checks RejectChangesNothing, IntermediateInvisible, '
+         'OrderOfActions, DataOfCausingEvent for all 4096 tables x chained-entry scripts and must FIND the stale-data deviation; generated edzed.FSM '
+         'subclasses (methods / instance callbacks / observers) replay event sequences and every recorded call must equal Handle() field by field.',
+         TRUSTED + '; timers are excluded here (C04)', '6 C03'),
+ 'C10': (MC, 'TLC model checking of Sim.tla on cyclic topologies with feedback + batch trace validation (bounded work, no false alarm, idle => consistent)',
+         'MC_Sim checks BoundedWork, IdleOnlyIfSolvable, UnstableOnlyAtLimit on all (cyclic) 2x2 topologies with event feedback and NoFalseAlarm on '
+         'acyclic ones; random cyclic networks, event-feedback loops and reconvergent DAGs run on the real simulator; the monitor bounds the '
+         'evaluations per burst, forbids "unstable" for networks with few paths and demands consistency at every idle point; a hanging execution is a violation.',
+         TRUSTED, '6 C10'),
+ 'C11': (MC, 'TLC model checking of Guard.tla (all event graphs of 3 nodes) + sharpness self-test + batch trace validation of enter/leave records',
+         'Guard.tla threads the _event_active flags through depth-first synchronous delivery; TLC checks Released, Depth1, RecursionIsFatal for all '
+         'graphs with 3 nodes and must find the flag-not-reset deviation; the graphs are built from real probe/Input/Counter/FSM/Repeat blocks with '
+         'filters and EventCond; the enter/leave/fail records seen at SBlock.event(), the exception, Circuit.error and a lock probe of every block '
+         'after each external event are validated by TLC.',
+         TRUSTED, '6 C11'),
+ 'C16': (MC, 'TLC evaluation of Filters.tla laws (Edge truth table, chain law, Delta state machine) + batch trace validation of real Event.send pipelines',
+         'Filters.tla defines Pipe/Chain/Edge/Delta/IfOutput/IfNotInitialized; TLC checks the Edge table against its documentation clauses, the '
+         'DataEdit chain law and the Delta memory rule; real Event.send() with pipelines of <=3 filters (all Edge tables, Delta sequences, DataEdit '
+         'chains x all dicts over 3 keys, control blocks changing, sends during initialisation) must return and deliver exactly what Pipe() yields.',
+         TRUSTED, '6 C16'),
+ 'C17': (MC, 'TLC exhaustive model checking of Input.tla (all validator tables on 3 values) + batch trace validation of real Input/InputExp',
+         'Input.tla is model-checked for every allowed/check/schema table over a 3-value domain (OutputAlwaysAccepted, RejectedChangesNothing); '
+         'real Input and InputExp blocks with generated validators (truthy/falsy results, raising schemas), initdef/expired/restored values replay put '
+         'sequences and every construct/put line must be the spec action.',
+         TRUSTED + '; restore validation is claimed for Input only', '6 C17'),
+})
 NA = {}
 ALL = [f'C{n:02d}' for n in range(1, 21)]
 
